@@ -462,7 +462,7 @@ def cases(rng, tier):
         return orc
     small = [[1, 1], [-1, 1], [2, 1], [1, 2], [1, 0, 1], [1, 1, 1], [-2, 0, 1], [2, 0, 1], [-3, 0, 1], [1, 0, 0, 1], [2, 0, 0, 1], [1, 1, 0, 1],
              [1, 0, 0, 0, 1], [-1, 1, 0, 1], [1, 0, 2], [3, 1, 1]]
-    for k in range(500 if not th else 5000):
+    for k in range(3000 if not th else 20000):
         g_ = rng.choice(small); e_ = rng.choice([2, 2, 3, 3, 4])
         a_ = zscal(rng.choice([1, 1, -1, -3, 2]), zpow(g_, e_))
         for h_ in rng.sample(small, rng.choice([1, 2, 2, 3])):
